@@ -6,8 +6,10 @@ import (
 	"bufio"
 	"context"
 	"crypto/tls"
+	"fmt"
 	"io"
 	"net"
+	"sort"
 	"time"
 
 	"github.com/gorilla/websocket"
@@ -15,6 +17,8 @@ import (
 	"github.com/bluenviron/gortsplib/v5/internal/asyncprocessor"
 	"github.com/bluenviron/gortsplib/v5/internal/base64streamreader"
 	"github.com/bluenviron/gortsplib/v5/pkg/base"
+	"github.com/bluenviron/gortsplib/v5/pkg/description"
+	"github.com/bluenviron/gortsplib/v5/pkg/verifhook"
 	"github.com/bluenviron/gortsplib/v5/pkg/headers"
 )
 
@@ -112,4 +116,41 @@ func VerifKeyMgmtHeader(url string, key []byte, ssrcs []uint32) (base.HeaderValu
 		return nil, err
 	}
 	return headers.KeyMgmt{URL: url, MikeyMessage: msg}.Marshal()
+}
+
+// verifOrder returns the keys of one of the library's maps in an order that is a function of the
+// run: sorted by what identifies the key, rotated by verifhook.MapSeed (see orderMapRanges in
+// /verif/tool/cmd/instrument). Keys without an identity keep the map's own order.
+func verifOrder[K comparable, V any](m map[K]V) []K {
+	keys := make([]K, 0, len(m))
+	for k := range m {
+		keys = append(keys, k)
+	}
+	sort.SliceStable(keys, func(i, j int) bool { return verifKeyOf(keys[i]) < verifKeyOf(keys[j]) })
+	if n := len(keys); n > 1 {
+		r := int(verifhook.MapSeed % uint64(n))
+		keys = append(keys[r:len(keys):len(keys)], keys[:r]...)
+	}
+	return keys
+}
+
+func verifKeyOf(k any) string {
+	switch v := k.(type) {
+	case *description.Media:
+		if v == nil {
+			return ""
+		}
+		pt := -1
+		if len(v.Formats) > 0 {
+			pt = int(v.Formats[0].PayloadType())
+		}
+		return fmt.Sprintf("m|%s|%s|%v|%03d|%d", v.Control, v.Type, v.IsBackChannel, pt, len(v.Formats))
+	case uint8:
+		return fmt.Sprintf("u|%03d", v)
+	case int:
+		return fmt.Sprintf("i|%012d", v)
+	case string:
+		return "s|" + v
+	}
+	return ""
 }
